@@ -128,16 +128,24 @@ def search(item, seed):
     for it in range(1500):
         use_map = rnd.random() < 0.5
         ego = dict(x=rnd.choice([0.0, 10.0, -3.0]), y=rnd.choice([0.0, 5.0]), yaw=rnd.choice([0.0, 0.5, 1.5707963, 3.0])) if use_map else None
+        if ego and rnd.random() < 0.4:      # a tilted ego (slope): ego-relative means relative to the ego's own axes
+            ego.update(pitch=rnd.choice([0.15, -0.3]), roll=rnd.choice([0.0, 0.2]))
         frame = "map" if use_map and rnd.random() < 0.7 else "base_link"
         # points exactly on a configured bound only in the ego frame: the map-frame round trip is not exact in floats
         g = grid if frame == "base_link" else [-4.5, -2.5, -1.25, -0.25, 0.25, 1.25, 2.25, 2.5, 3.75, 4.5]
         objs = [gen_obj(rnd, frame, g) for _ in range(rnd.randint(1, 4))]
+        if ego and ego.get("pitch") and frame == "map":
+            # just beyond / inside a distance bound along the ego's own x axis: the ego-plane distance and the map-plane distance differ there
+            for d in objs:
+                if rnd.random() < 0.6:
+                    d["x"], d["y"] = rnd.choice([3.06, 5.1, 1.53, 0.51, 2.97, 4.9]) * rnd.choice([1, -1]), 0.0
         for d in objs:
             if d["frame"] == "map":       # express the grid point in the map frame: ego-relative value stays on the grid
-                import math
-                c, s = math.cos(ego["yaw"]), math.sin(ego["yaw"])
+                import numpy as np
                 x, y = d["x"], d["y"]
-                d["x"], d["y"] = ego["x"] + c * x - s * y, ego["y"] + s * x + c * y
+                d["ego_xy"] = [x, y]
+                pm = build.quat_ego(ego).rotate(np.array([x, y, d.get("z", 0.0)]))
+                d["x"], d["y"], d["z"] = ego["x"] + float(pm[0]), ego["y"] + float(pm[1]), float(pm[2])
         p = gen_params(rnd)
         is_gt = rnd.random() < 0.5
         results = [(rnd.randrange(len(objs)), rnd.choice([None] + list(range(len(objs))))) for _ in range(rnd.randint(0, 3))]
